@@ -9,7 +9,7 @@ from .. import common as C
 from .. import graph_hist as H
 
 LEVEL = 'proof'
-NEEDS = ['Base', 'Names', 'Graph', 'GraphObs', 'GraphTS', 'GraphInv', 'Equality', 'EqualityProofs', 'CorrEq', 'Extracted', 'Facts']
+NEEDS = ['SFSerialEq', 'FactsEq', 'Extracted', 'SourceFacts', 'Base', 'Names', 'Graph', 'GraphObs', 'GraphTS', 'GraphInv', 'Equality', 'EqualityProofs', 'CorrEq', 'Extracted', 'Facts']
 SYM = {'--', '<>', 'oo'}
 
 
